@@ -38,6 +38,9 @@ type reqWorld struct {
 	// deadline and a log budget and raises, so that the case unwinds linearly and is reported as a timeout
 	deadline time.Time
 	timedOut bool
+	// op "newloaded": the table a script ASSIGNED to package.loaded (require / module / RegisterModule keep using the
+	// registry's table — w.loaded — and must never touch this one)
+	newLoaded *lua.LTable
 }
 
 var c20Timeouts int32 // circuit breaker: after a few timeouts the remaining cases get a short deadline
@@ -59,7 +62,16 @@ GLOB = function(n)
   end
   return t
 end
+ORIG_LOADERS = package.loaders
+ORIG_P, ORIG_L = package.loaders[1], package.loaders[2]
 `
+
+// the broken module files of op "badfile": they exist (os.Stat succeeds) but cannot be turned into a function
+var c20BadSrc = map[string]string{
+	"syntax": "local NT = NT\nLOG(\"F\", \"never\", ...)\nreturn { v = ",                 // parser: unexpected end of file
+	"lex":    "LOG(\"F\", \"never\", ...)\nlocal s = \"unterminated\nreturn s\n",          // scanner error in the middle
+	"stmt":   "LOG(\"F\", \"never\", ...)\nlocal x = = 1\nreturn x\n",                     // parser error in the middle
+}
 
 // metatable set-ups of op "gmeta" (see execRequire)
 var c20MetaSrc = map[string]string{
@@ -220,6 +232,26 @@ func (w *reqWorld) classify(msg string) string {
 		r := line(msg[i+len("name conflict for module("):])
 		return "E:conflict:" + strings.TrimSuffix(r, ")")
 	}
+	if !strings.Contains(msg, " not found:") {
+		// an error that names a module file without a run-time position (`file.lua:12:`): the file could not be read /
+		// compiled ("<path> at EOF: syntax error", "<path> line:2(column:9) near …", "read <path>: is a directory");
+		// position prefixes of the Lua frames the error passed through (`ma.lua:4: `) are skipped
+		for rest := msg; ; {
+			i := strings.Index(rest, w.dir+"/")
+			if i < 0 {
+				break
+			}
+			rest = rest[i+len(w.dir)+1:]
+			j := strings.Index(rest, ".lua")
+			if j < 0 {
+				break
+			}
+			after := rest[j+4:]
+			if !(len(after) >= 2 && after[0] == ':' && after[1] >= '0' && after[1] <= '9') {
+				return "E:loaderr:" + rest[:j+4]
+			}
+		}
+	}
 	if i := strings.Index(msg, "module "); i >= 0 {
 		rest := msg[i+len("module "):]
 		if j := strings.Index(rest, " not found:"); j >= 0 {
@@ -227,13 +259,15 @@ func (w *reqWorld) classify(msg string) string {
 			body := strings.TrimSuffix(rest[j+len(" not found:"):], ", ")
 			var tried []string
 			for k, l := range strings.Split(body, "\n\t") {
-				if k == 0 && strings.TrimSpace(l) == "" {
-					continue
+				if strings.TrimSpace(l) == "" && (k == 0 || strings.TrimSpace(body) == "") {
+					continue // nothing before the first message; an empty chain of searchers accumulates nothing at all
 				}
 				switch {
 				case strings.HasPrefix(l, "stat "+w.dir+"/blocker/"):
 					// the unusable template some histories put in front of the path (see execRequire): it can never
 					// hold a module, whatever the reason the file system gives; the Model's path does not list it
+				case strings.HasPrefix(l, "custom:"):
+					tried = append(tried, "C:"+l[len("custom:"):])
 				case strings.HasPrefix(l, "no field package.preload['") && strings.HasSuffix(l, "']"):
 					tried = append(tried, "P:"+l[len("no field package.preload['"):len(l)-2])
 				case strings.HasPrefix(l, "stat "+w.dir+"/") && strings.HasSuffix(l, ": no such file or directory"):
@@ -319,6 +353,8 @@ func luaBody(src, key string, b c20Beh) string {
 		sb.WriteString("package.loaded[name] = nil\nreturn NT()\n")
 	case "raise":
 		sb.WriteString("error(\"boom:\" .. name)\n")
+	case "setraise":
+		sb.WriteString("package.loaded[name] = NT()\nerror(\"boom:\" .. name)\n")
 	case "mod", "setmod":
 		if b.final == "setmod" {
 			sb.WriteString("package.loaded[name] = NT()\n")
@@ -388,6 +424,10 @@ func (w *reqWorld) goLoader(key string, b c20Beh) lua.LGFunction {
 		case "raise":
 			L.RaiseError("boom:%s", name)
 			return 0
+		case "setraise":
+			L.SetField(w.loaded, name, w.newTable())
+			L.RaiseError("boom:%s", name)
+			return 0
 		}
 		panic("bad final for a Go loader: " + b.final)
 	}
@@ -430,8 +470,44 @@ func execRequire(ops []Op) []string {
 	writeFile := func(rel, src string) {
 		p := filepath.Join(w.dir, rel)
 		os.MkdirAll(filepath.Dir(p), 0o755)
+		if st, err := os.Lstat(p); err == nil && st.IsDir() { // a "badfile … dir" is being repaired
+			os.RemoveAll(p)
+		}
 		if err := os.WriteFile(p, []byte(src), 0o644); err != nil {
 			panic(err)
+		}
+	}
+	doLua := func(src string) {
+		if err := L.DoString(c20Locals + src); err != nil {
+			panic(err)
+		}
+	}
+	// the Lua expression for a searcher token (see RequireEng.parseSearcher)
+	searcherExpr := func(tok string) string {
+		parts := strings.SplitN(tok, ":", 3)
+		switch parts[0] {
+		case "P":
+			return "ORIG_P"
+		case "L":
+			return "ORIG_L"
+		case "N":
+			return "function(n) return nil end"
+		case "M":
+			return fmt.Sprintf("function(n) return %q end", "custom:"+parts[1])
+		case "C":
+			return fmt.Sprintf("function(n) if n == %q then return function(...)\n%s\nend end end", parts[1], luaBody("S", parts[1], parseC20Beh(parts[2])))
+		}
+		panic("bad searcher token " + tok)
+	}
+	// a table assigned to package.loaded must stay as the script left it (op "newloaded")
+	checkNewLoaded := func() {
+		if w.newLoaded == nil {
+			return
+		}
+		keys := ""
+		w.newLoaded.ForEach(func(k, v lua.LValue) { keys += k.String() + " " })
+		if keys != "" {
+			out = append(out, "X loaded-replaced => the table a script assigned to package.loaded was written to by the module system (keys: "+keys+"); require/module/RegisterModule use registry._LOADED")
 		}
 	}
 	if n := len(ops); n > 0 && (n+len(ops[n-1].Args)+len(ops[0].Args))%2 == 1 {
@@ -469,8 +545,79 @@ func execRequire(ops []Op) []string {
 		case "file":
 			writeFile(a[1], luaBody("F", a[1], parseC20Beh(a[2])))
 			emit(a, "")
+		case "badfile":
+			// a module file that EXISTS but cannot be loaded: a[2] = syntax | lex | stmt (does not compile) | dir (cannot be read)
+			if a[2] == "dir" {
+				p := filepath.Join(w.dir, a[1])
+				os.RemoveAll(p)
+				if err := os.MkdirAll(p, 0o755); err != nil {
+					panic(err)
+				}
+			} else {
+				writeFile(a[1], c20BadSrc[a[2]])
+			}
+			emit(a, "")
 		case "rmfile":
-			os.Remove(filepath.Join(w.dir, a[1]))
+			os.RemoveAll(filepath.Join(w.dir, a[1]))
+			emit(a, "")
+		case "newpreload":
+			// package.preload = a FRESH table that got the entries of the names a[1] from the old one; a[2] == "go": the
+			// host assigns the field
+			keep := ""
+			if a[1] != "-" {
+				keep = `"` + strings.Join(strings.Split(a[1], ","), `", "`) + `"`
+			}
+			if len(a) > 2 && a[2] == "go" {
+				pkg := L.GetGlobal("package")
+				old := L.GetField(pkg, "preload")
+				t := L.NewTable()
+				if a[1] != "-" {
+					for _, k := range strings.Split(a[1], ",") {
+						L.SetField(t, k, L.GetField(old, k))
+					}
+				}
+				L.SetField(pkg, "preload", t)
+			} else {
+				doLua(fmt.Sprintf("local old, t = package.preload, {}\nfor _, k in ipairs({%s}) do t[k] = old[k] end\npackage.preload = t", keep))
+			}
+			emit(a[:2], "")
+		case "path":
+			// package.path = another string: the templates a[1] (relative to the module dir)
+			var ts []string
+			for _, t := range strings.Split(a[1], ";") {
+				ts = append(ts, w.dir+"/"+t)
+			}
+			doLua(fmt.Sprintf("package.path = %q", strings.Join(ts, ";")))
+			emit(a, "")
+		case "newcpath":
+			// gopher-lua has no C searchers: package.cpath is never read; the Model never hears of this op
+			doLua(fmt.Sprintf("package.cpath = %q", w.dir+"/?.so;"+w.dir+"/?.lua"))
+		case "newloaded":
+			// package.loaded = {}: require / module / RegisterModule go through the registry (_LOADED), so nothing changes
+			// for them — the Model never hears of this op; from here on `clear` (package.loaded[n] = nil from Lua) hits the
+			// new table and is no event for the Model either
+			doLua("package.loaded = {}")
+			w.newLoaded = L.GetField(L.GetGlobal("package"), "loaded").(*lua.LTable)
+		case "ldswap":
+			doLua("local t = package.loaders\nif #t >= 2 then t[1], t[2] = t[2], t[1] end")
+			emit(a, "")
+		case "ldrm":
+			doLua(fmt.Sprintf("if #package.loaders >= %s then table.remove(package.loaders, %s) end", a[1], a[1]))
+			emit(a, "")
+		case "ldins":
+			doLua(fmt.Sprintf("local t = package.loaders\nlocal pos = %s\nif pos > #t + 1 then pos = #t + 1 end\ntable.insert(t, pos, %s)", a[1], searcherExpr(a[2])))
+			emit(a, "")
+		case "ldnew":
+			var es []string
+			if a[1] != "-" {
+				for _, t := range strings.Split(a[1], "/") {
+					es = append(es, searcherExpr(t))
+				}
+			}
+			doLua("package.loaders = {" + strings.Join(es, ",\n") + "}")
+			emit(a, "")
+		case "ldrestore":
+			doLua("package.loaders = ORIG_LOADERS")
 			emit(a, "")
 		case "preload":
 			// the helpers are captured outside the function: module() replaces the function's environment for good
@@ -491,7 +638,9 @@ func execRequire(ops []Op) []string {
 			if err := L.DoString(fmt.Sprintf("package.loaded[%q] = nil", a[1])); err != nil {
 				panic(err)
 			}
-			emit(a, "")
+			if w.newLoaded == nil {
+				emit(a, "")
+			}
 		case "gtrue":
 			L.RawSet(L.Get(lua.GlobalsIndex).(*lua.LTable), lua.LString(a[1]), lua.LTrue)
 			emit(a, "")
@@ -529,6 +678,7 @@ func execRequire(ops []Op) []string {
 			}
 			emit([]string{"require", a[1]}, strings.TrimSpace(strings.Join(w.log, " ")+" "+res))
 			observe(a[1])
+			checkNewLoaded()
 		case "register":
 			var res string
 			var ret lua.LValue
@@ -549,6 +699,7 @@ func execRequire(ops []Op) []string {
 			}
 			emit(a, res)
 			observe(a[1])
+			checkNewLoaded()
 		case "global":
 			top := L.GetTop()
 			r := "E:glob"
@@ -684,7 +835,7 @@ func genC20Beh(r *Rng, goLoader bool) string {
 		steps = append(steps, k+Pick(r, c20Names))
 	}
 	finals := []string{"ret", "ret", "ret", "ret", "ret", "ret", "none", "none", "retfalse", "set", "set", "setret", "setret",
-		"setnil", "setnilret", "raise", "raise", "mod", "mod", "setmod"}
+		"setnil", "setnilret", "raise", "raise", "mod", "mod", "setmod", "setraise"}
 	f := Pick(r, finals)
 	for goLoader && (f == "mod" || f == "setmod") {
 		f = Pick(r, finals)
@@ -740,6 +891,44 @@ func genC20Random(r *Rng, maxLen int) []Op {
 			}
 		case c < 59:
 			add(Pick(r, []string{"global", "loaded"}), x)
+		case c < 62:
+			// a module file that exists but does not load (either template)
+			add("badfile", c20Path(x, r.Chance(30)), Pick(r, []string{"syntax", "lex", "stmt", "dir"}))
+			have[x] = true
+		case c < 64:
+			// package.preload replaced by a fresh table (keeping a random subset of the entries), from Lua or by the host
+			var keep []string
+			for _, y := range c20Names {
+				if r.Chance(35) {
+					keep = append(keep, y)
+				}
+			}
+			k := "-"
+			if len(keep) > 0 {
+				k = strings.Join(keep, ",")
+			}
+			if r.Bool() {
+				add("newpreload", k)
+			} else {
+				add("newpreload", k, "go")
+			}
+		case c < 66:
+			add("path", Pick(r, []string{"alt/?.lua;?.lua", "alt/?.lua", "?.lua", "?.lua;alt/?.lua", "?.lua;?.lua;alt/?.lua", "none/?.lua;alt/?.lua;?.lua"}))
+		case c < 67:
+			add("newcpath")
+		case c < 69:
+			// package.loaders changed IN PLACE (replacing the table is the known finding: family E only)
+			switch r.Intn(5) {
+			case 0:
+				add("ldswap")
+			case 1:
+				add("ldrm", Pick(r, []string{"1", "2", "3"}))
+			case 2:
+				add("ldins", Pick(r, []string{"1", "2", "3"}), Pick(r, []string{"N", "M:hi"}))
+			default:
+				add("ldins", Pick(r, []string{"1", "1", "2", "3"}), "C:"+x+":"+genC20Beh(r, false))
+				have[x] = true
+			}
 		default:
 			// mostly modules that have (had) a loader
 			if !have[x] && r.Chance(80) {
@@ -762,6 +951,216 @@ func genC20Random(r *Rng, maxLen int) []Op {
 	return ops
 }
 
+
+// ---------- family D: a require that FAILS at each stage, the cause repaired (or not), the require repeated ----------
+//
+// stage = where the first require of x fails (or what odd value it yields): nothing found; a file found that does not
+// compile / cannot be read (either template, also shadowing a good file, also behind a nested require); the loader
+// raises; raises after having assigned package.loaded[x]; returns false / nothing; assigns nil; requires itself.
+// repair = what the host does before the second require: nothing, rewrite the file (either template), register a
+// preload entry (Lua / Go), clear package.loaded[x], both, remove the file, repair the nested module.
+// What package.loaded[x] holds after every step, which loaders run and what every require answers is compared with the
+// Model and the Spec (lloadlib.c 5.1.5: the sentinel is stored only once a loader was FOUND, i.e. after the file compiled).
+func c20FailStages(x, o string) [][]Op {
+	mk := func(args ...string) Op { return Op{Args: args} }
+	f, fa, fo := c20Path(x, false), c20Path(x, true), c20Path(o, false)
+	return [][]Op{
+		{},
+		{mk("badfile", f, "syntax")},
+		{mk("badfile", fa, "lex")},
+		{mk("badfile", f, "dir")},
+		{mk("badfile", fa, "dir")},
+		{mk("badfile", f, "stmt"), mk("file", fa, ";ret")},
+		{mk("file", f, ";raise")},
+		{mk("preload", x, ";raise")},
+		{mk("gpreload", x, ";raise")},
+		{mk("file", f, ";setraise")},
+		{mk("preload", x, ";setraise")},
+		{mk("gpreload", x, ";setraise")},
+		{mk("file", f, ";retfalse")},
+		{mk("file", fa, ";none")},
+		{mk("file", f, ";setnil")},
+		{mk("file", f, "req:" + x + ";ret")},
+		{mk("file", f, "req:" + o + ";ret"), mk("badfile", fo, "syntax")},
+		{mk("file", f, "preq:" + o + ";ret"), mk("badfile", fo, "dir")},
+		{mk("preload", x, "req:" + o + ";none"), mk("file", fo, ";setraise")},
+		{mk("preload", x, ";ret"), mk("badfile", f, "syntax")},
+		{mk("file", f, "preq:" + x + ";setraise")},
+	}
+}
+
+func c20Repairs(x, o string) [][]Op {
+	mk := func(args ...string) Op { return Op{Args: args} }
+	f, fa, fo := c20Path(x, false), c20Path(x, true), c20Path(o, false)
+	return [][]Op{
+		{},
+		{mk("file", f, ";ret")},
+		{mk("file", fa, ";none")},
+		{mk("preload", x, ";ret")},
+		{mk("gpreload", x, ";none")},
+		{mk("clear", x)},
+		{mk("clear", x), mk("file", f, ";ret")},
+		{mk("rmfile", f), mk("rmfile", fa)},
+		{mk("file", fo, ";ret"), mk("clear", x), mk("clear", o)},
+		{mk("badfile", f, "lex")},
+	}
+}
+
+func genC20FailRepair() [][]Op {
+	var res [][]Op
+	req := func(n string, viaGo bool) Op {
+		if viaGo {
+			return Op{Args: []string{"require", n, "go"}}
+		}
+		return Op{Args: []string{"require", n}}
+	}
+	for ni, x := range []string{"ma", "p.q"} {
+		o := []string{"p.q", "ma"}[ni]
+		for si, st := range c20FailStages(x, o) {
+			for ri, rp := range c20Repairs(x, o) {
+				var ops []Op
+				ops = append(ops, st...)
+				viaGo := (si+ri+ni)%3 == 0 // a third of the histories require through the Go API
+				ops = append(ops, req(x, viaGo))
+				ops = append(ops, rp...)
+				ops = append(ops, req(x, false), req(x, viaGo), req(o, false), Op{Args: []string{"loaded", x}})
+				res = append(res, ops)
+			}
+		}
+	}
+	return res
+}
+
+// ---------- family E: the package fields REPLACED during a history ----------
+//
+// package.preload = {…} (from Lua / by the host; keeping some entries or none; registrations in the new table from Lua
+// and through L.PreloadModule; entries left in the discarded table), package.path = another string (order swapped,
+// one template only, back again), package.loaded = {} and package.cpath = … (neither is read by the module system:
+// _LOADED lives in the registry, there are no C searchers), package.loaders changed in place (swap, remove, insert
+// scripted searchers) and REPLACED by a new table (lloadlib.c reads the field `loaders` of the package table on every
+// call — gopher-lua reads the registry's table: known finding C20-loaders-replaced, recognised by the engine).
+func genC20Replaced() [][]Op {
+	mk := func(args ...string) Op { return Op{Args: args} }
+	var res [][]Op
+	for ni, x := range []string{"ma", "p.q"} {
+		o := []string{"p.q", "ma"}[ni]
+		f, fa, fo := c20Path(x, false), c20Path(x, true), c20Path(o, false)
+		// E1 package.preload replaced
+		configs := [][]Op{
+			{mk("preload", x, ";ret")},
+			{mk("gpreload", x, ";ret")},
+			{mk("preload", x, ";ret"), mk("file", f, ";none")},
+			{mk("file", fa, ";ret"), mk("gpreload", o, ";none")},
+		}
+		firsts := [][]Op{{}, {mk("require", x), mk("clear", x)}}
+		replaces := [][]Op{{mk("newpreload", "-")}, {mk("newpreload", "-", "go")}, {mk("newpreload", x)}, {mk("newpreload", o, "go")},
+			{mk("newpreload", "-"), mk("newpreload", x+","+o)}}
+		thens := [][]Op{
+			{},
+			{mk("preload", x, ";set")},
+			{mk("gpreload", x, ";ret")},
+			{mk("gpreload", o, "preq:" + x + ";ret")},
+			{mk("unpreload", x), mk("preload", o, ";none")},
+		}
+		for _, c := range configs {
+			for _, fi := range firsts {
+				for _, rp := range replaces {
+					for _, th := range thens {
+						var ops []Op
+						ops = append(ops, c...)
+						ops = append(ops, fi...)
+						ops = append(ops, rp...)
+						ops = append(ops, th...)
+						ops = append(ops, mk("require", x), mk("require", x, "go"), mk("require", o))
+						res = append(res, ops)
+					}
+				}
+			}
+		}
+		// E2 package.path reassigned (and cpath, which nothing reads)
+		for ci, c := range [][]Op{
+			{mk("file", f, ";ret"), mk("file", fa, ";none")},
+			{mk("file", fa, ";ret")},
+			{mk("file", f, ";set")},
+			{},
+		} {
+			for pi, path := range []string{"alt/?.lua;?.lua", "alt/?.lua", "?.lua", "?.lua;alt/?.lua", "nowhere/?.lua;?.luac"} {
+				for _, early := range []bool{false, true} {
+					var ops []Op
+					ops = append(ops, c...)
+					if early {
+						ops = append(ops, mk("require", x), mk("clear", x))
+					}
+					if (ci+pi)%2 == 0 {
+						ops = append(ops, mk("newcpath"))
+					}
+					ops = append(ops, mk("path", path), mk("require", x), mk("clear", x), mk("path", "?.lua;alt/?.lua"), mk("require", x), mk("require", o))
+					res = append(res, ops)
+				}
+			}
+		}
+		// E3 package.loaded replaced: loaders that do not assign package.loaded from Lua (they would write to the new table)
+		for _, c := range [][]Op{
+			{mk("file", f, ";ret")},
+			{mk("preload", x, ";none")},
+			{mk("gpreload", x, ";retfalse")},
+			{mk("gpreload", x, ";set")},
+			{mk("file", fa, ";raise")},
+		} {
+			for _, early := range []bool{false, true} {
+				var ops []Op
+				ops = append(ops, c...)
+				ops = append(ops, mk("file", fo, "preq:" + x + ";ret"))
+				if early {
+					ops = append(ops, mk("newloaded"))
+				}
+				ops = append(ops, mk("require", x))
+				if !early {
+					ops = append(ops, mk("newloaded"))
+				}
+				ops = append(ops, mk("require", x), mk("clear", x), mk("require", x, "go"), mk("require", o), mk("register", x, "f1"), mk("require", x), mk("loaded", o))
+				res = append(res, ops)
+			}
+		}
+		// E5 package.loaders changed in place / replaced
+		chainOps := [][]Op{
+			{mk("ldswap")},
+			{mk("ldrm", "1")},
+			{mk("ldrm", "2")},
+			{mk("ldrm", "1"), mk("ldrm", "1")},
+			{mk("ldins", "1", "C:" + x + ":;ret")},
+			{mk("ldins", "3", "C:" + x + ":;set")},
+			{mk("ldins", "1", "N"), mk("ldins", "2", "M:hi")},
+			{mk("ldins", "2", "C:" + o + ":preq:" + x + ";none")},
+			{mk("ldnew", "-")},
+			{mk("ldnew", "L/P")},
+			{mk("ldnew", "P")},
+			{mk("ldnew", "L")},
+			{mk("ldnew", "P/L")},
+			{mk("ldnew", "C:" + x + ":;ret/P/L")},
+			{mk("ldnew", "M:hi/N/P/L/M:bye")},
+			{mk("ldnew", "-"), mk("ldrestore")},
+			{mk("ldnew", "P"), mk("ldins", "1", "C:" + x + ":;ret")},
+			{mk("ldswap"), mk("ldnew", "P/L"), mk("ldswap"), mk("ldrestore")},
+		}
+		for _, c := range [][]Op{
+			{mk("preload", x, ";ret"), mk("file", f, ";none")},
+			{mk("file", fa, ";ret")},
+			{mk("gpreload", x, ";none")},
+			{},
+		} {
+			for _, co := range chainOps {
+				var ops []Op
+				ops = append(ops, c...)
+				ops = append(ops, co...)
+				ops = append(ops, mk("require", x), mk("require", x), mk("require", o))
+				res = append(res, ops)
+			}
+		}
+	}
+	return res
+}
+
 func init() { props["C20"] = runC20; replayExec["C20"] = execRequire }
 
 func runC20(run *Run) {
@@ -769,12 +1168,14 @@ func runC20(run *Run) {
 	if run.Tier == "thorough" {
 		nFam2, nFam3, nRand = -1, 150000, 60000
 	}
-	run.Rule = "histories of require / preload / file / clear / register over module names {ma, p, p.q} executed on the real interpreter (module files in a temp dir on package.path, preload from Lua and via L.PreloadModule, host modules via L.RegisterModule) and replayed on the Lean Model (exact reply: loader-run log, nested results, identity tag of the result, error class incl. the list of what was tried), the Spec (manual's algorithm) and a cache monitor. TEST families: (A) bounded-exhaustive 2-name family = 15 loader configurations per name x action sequences of length <= 4 over {require, clear, register} (thorough: all of it; quick: seeded subset), (B) the same with 3 names (seeded subset), (C) random histories of length <= 12 with random loader bodies (0-3 nested requires, protected or not, incl. self/mutual; finals ret/none/false/set/set+ret/setnil/setnil+ret/raise/module/set+module). distinct = distinct histories (ops incl. behaviours) with >= 3 ops"
+	run.Rule = "histories of require / preload / file / clear / register over module names {ma, p, p.q} executed on the real interpreter (module files in a temp dir on package.path, preload from Lua and via L.PreloadModule, host modules via L.RegisterModule) and replayed on the Lean Model (exact reply: loader-run log, nested results, identity tag of the result, error class incl. the list of what was tried), the Spec (manual's algorithm) and a cache monitor. TEST families: (A) bounded-exhaustive 2-name family = 15 loader configurations per name x action sequences of length <= 4 over {require, clear, register} (thorough: all of it; quick: seeded subset), (B) the same with 3 names (seeded subset), (C) random histories of length <= 12 with random loader bodies (0-3 nested requires, protected or not, incl. self/mutual; finals ret/none/false/set/set+ret/setnil/setnil+ret/raise/set+raise/module/set+module; module files that exist but do not compile or cannot be read; package.preload replaced by a fresh table, package.path reassigned, package.cpath reassigned, package.loaders changed in place incl. scripted searchers), (D) bounded-exhaustive, every run: 21 failure stages of the first require (nothing found / file does not compile or is unreadable, either template, shadowing, nested / loader raises / raises after assigning / false / nothing / assigns nil / self-require) x 10 repairs (rewrite file, preload entry from Lua or Go, clear, remove, repair the nested module, none) x 2 names, then the require repeated, (E) bounded-exhaustive, every run: package.preload / path / loaded / cpath / loaders REPLACED (and loaders changed in place) around requires and registrations from Lua and through L.PreloadModule. distinct = distinct histories (ops incl. behaviours) with >= 3 ops"
 	run.Assume = []string{
 		"the OS file system (os.Stat, reading the module file) behaves as a map from path to contents; the Model takes that map as a parameter",
 		"table identity crosses the wire as a serial tag written at creation; the executor checks tag <-> pointer bijectivity on every encoded value",
-		"package.loaded / package.preload carry no metatables and package.path stays the string the harness set (the histories never touch them otherwise)",
-		"loader bodies are the behaviours of the generator's alphabet (nested requires, then one final action); module files are syntactically valid",
+		"package.loaded / package.preload carry no metatables; package.preload is always a table, package.path a string, package.loaders a table (the error branches 'must be a table/string' are not generated); the global `package` itself is never reassigned",
+		"loader bodies are the behaviours of the generator's alphabet (nested requires, then one final action); a module file either is such a body or does not load at all (syntax/scanner error, a directory)",
+		"searchers a script adds to package.loaders are of three shapes: answers a loader for one name, answers a fixed string, answers nil",
+		"lloadlib.c of Lua 5.1.5 is the reference for what the manual leaves open: which package fields are read per call (loaders, preload, path through the package table; _LOADED through the registry) and when the sentinel is stored (after a loader was found)",
 	}
 	root := NewRng(uint64(run.Seed))
 	var cases []Case
@@ -803,6 +1204,18 @@ func runC20(run *Run) {
 		r := root.Fork(uint64(100 + i))
 		cases = append(cases, Case{Idx: 2000000000 + i, Ops: genC20Random(r, maxLen)})
 	}
+	// families D and E: small, exhaustive, on every run (both tiers)
+	nD, nE := 0, 0
+	for i, ops := range genC20FailRepair() {
+		cases = append(cases, Case{Idx: 1500000000 + i, Ops: ops, Note: "fail-repair"})
+		nD++
+	}
+	for i, ops := range genC20Replaced() {
+		cases = append(cases, Case{Idx: 1600000000 + i, Ops: ops, Note: "replaced-field"})
+		nE++
+	}
+	run.Extra["fail_repair_histories"] = nD
+	run.Extra["replaced_field_histories"] = nE
 	tieCases := 0
 	for _, c := range cases {
 		for _, o := range c.Ops {
